@@ -148,6 +148,15 @@ func (cx *Connection) Wrap(conn net.Conn) *Connection {
 	return wrapped
 }
 
+// CloseWrite shuts down the writing side of the underlying connection if it can be
+// half-closed (TCP, Unix sockets, TLS, and wrappers that pass it on).
+func (cx *Connection) CloseWrite() error {
+	if cw, ok := cx.Conn.(interface{ CloseWrite() error }); ok {
+		return cw.CloseWrite()
+	}
+	return errors.ErrUnsupported
+}
+
 // prefetch tries to read all bytes that a client initially sent us without blocking.
 func (cx *Connection) prefetch() (err error) {
 	var n int
